@@ -443,3 +443,90 @@ def ob_faults(pid, D, label="C06.a"):
     return vf.FN("%s local fault lemmas: on every listed fault the lexer can only report an error or emit a token no parser state accepts" % label, fn,
                  engine="z3 regex membership", encodes=ENC_LEX + ENC_PAR, symbolic="the remaining input after the fault position (unbounded)",
                  bound="bracket level <= %d; faults at a token boundary (boundaries are the reference boundaries by C05.b)" % D)
+
+
+# ------------------------------------------------------------------------------------------------ C06.e end-to-end fault witnesses
+def ob_fault_witnesses(pid, D, label="C06.e"):
+    """z3 picks members of (valid prefix . fault . valid suffix) for every fault class x position class; each is written to a
+    file and pushed through the real cminx.main: it must fail (exception or non-zero exit) and write no page.
+    This is witness replay through the whole wiring (lexer listener, parser listener, ANTLR recovery, document_single_file):
+    it supports the composition of the lemmas a-d and is NOT exhaustive."""
+    def fn(work):
+        import subprocess, tempfile, shutil
+        c = ctx(D)
+        lex, q = c["lex"], c["q"]
+        t0, q0, n0 = time.time(), q.secs, q.n
+        ident = cat(alt(rng("a", "z")), star(alt(rng("a", "z"), chars("_"))))
+        word = plus(rng("a", "z"))
+        cmd = cat(ident, lit("("), opt(cat(word, star(cat(lit(" "), word)))), lit(")"))
+        nl = lit("\n")
+        doc = cat(lit("#[[[\n# "), word, lit("\n#]]\n"))
+        valid_item = alt(cat(cmd, nl), cat(doc, cmd, nl), cat(lit("# "), word, nl))
+        lexical = {
+            "stray unterminated quote": cat(lit('"'), word),
+            "backslash + alphanumeric": cat(lit("\\"), and_(rng("a", "z"), not_(chars("trn"))), star(rng("a", "z"))),
+            "unterminated #[[ comment": cat(lit("#[["), and_(plus(alt(rng("a", "z"), chars(" \n"))), not_(cat(ALL, lit("]]"), ALL)))),
+            "unterminated #[=[ comment": cat(lit("#[=["), word),
+        }
+        syntactic = {
+            "bare word": word,
+            "extra closing parenthesis": lit(")"),
+            "missing closing parenthesis": cat(ident, lit("("), word),
+        }
+        positions = {
+            "at the very start of the file": (EPS, cat(nl, star(valid_item))),
+            "after a leading line comment": (cat(lit("# "), word, nl), cat(nl, star(valid_item))),
+            "between two commands": (cat(plus(valid_item)), cat(nl, plus(valid_item))),
+            "after a command on the same line": (cat(star(valid_item), cmd, lit(" ")), cat(nl, star(valid_item))),
+            "right before a doccomment": (star(valid_item), cat(nl, doc, cmd, nl)),
+            "at the end of the file": (plus(valid_item), EPS),
+        }
+        inside = {
+            "inside an argument list": (cat(star(valid_item), ident, lit("("), word, lit(" ")), cat(lit(")"), nl, star(valid_item))),
+        }
+        cases = []
+        for fname, F in list(lexical.items()) + list(syntactic.items()):
+            for pname, (pre, suf) in positions.items():
+                lang = cat(pre, F, suf)
+                if fname.startswith("unterminated #"):       # unterminated = no matching close up to the end of the file
+                    close = "]]" if "#[[" in fname else "]=]"
+                    lang = cat(pre, and_(cat(F, suf), not_(cat(ALL, lit(close), ALL))))
+                cases.append((fname, pname, lang))
+        for fname, F in lexical.items():
+            for pname, (pre, suf) in inside.items():
+                if fname.startswith("unterminated #"):
+                    continue          # swallows the closing parenthesis: becomes 'missing parenthesis', covered above
+                cases.append((fname, pname, cat(pre, F, suf)))
+        bad, unknown, samples = [], [], []
+        tmp = os.path.join(work, "faults")
+        shutil.rmtree(tmp, ignore_errors=True)
+        os.makedirs(tmp)
+        n = 0
+        for minlen in (0, 40):
+            for (fname, pname, lang) in cases:
+                r = lang if minlen == 0 else and_(lang, cat(*([REALC] * minlen), ALL))
+                res, w = q.witness("%s %s" % (fname, pname), and_(r, ALL))
+                if res == "unsat":
+                    continue          # no such file exists (e.g. an 'unterminated' comment closed by the doccomment's '#]]')
+                if res != "sat":
+                    unknown.append("%s %s: %s" % (fname, pname, res))
+                    continue
+                n += 1
+                src = os.path.join(tmp, "f%d.cmake" % n)
+                out = os.path.join(tmp, "o%d" % n)
+                open(src, "w", encoding="utf-8").write(w)
+                p = subprocess.run([vf.PY, "-W", "ignore", "-c", "import sys, cminx; cminx.main([sys.argv[1], '-o', sys.argv[2]])", src, out],
+                                   capture_output=True, text=True, timeout=120, env=dict(os.environ, XDG_CONFIG_HOME=os.path.join(work, "xdg")))
+                wrote = os.path.isdir(out) and any(f.endswith(".rst") for f in os.listdir(out))
+                if p.returncode == 0 or wrote:
+                    bad.append(("%s %s" % (fname, pname), w, True, "cminx exit status %d, page written: %s" % (p.returncode, wrote)))
+                if len(samples) < 3 and minlen == 0:
+                    samples.append({"fault": fname, "position": pname, "file_text": w, "exit_status": p.returncode})
+        out = _finish(pid, label, work, bad, unknown, q0, n0, t0, q, samples, validated=n)
+        if out["verdict"] == vf.HOLDS:
+            out["detail"] = "%d solver-chosen faulty files (7 fault classes x 6-7 position classes x 2 sizes): every one fails with non-zero status and writes nothing" % n
+        return out
+    return vf.FN("%s end-to-end witnesses: every fault class at every position class makes cminx.main fail and write nothing" % label, fn,
+                 engine="z3 picks members of the composed languages; each is replayed through the real CLI entry point (witness replay, not exhaustive)",
+                 encodes=["cminx.main -> document -> document_single_file -> Documenter.__init__/process (real lexer, parser, listeners, ANTLR error strategy)"],
+                 symbolic="the concrete text is chosen by z3 from prefix . fault . suffix languages", bound="one or two witnesses per (fault class, position class)")
